@@ -309,3 +309,7 @@ Proof.
   exists {| fo_raw := "b"; fo_format := Some "F:b"; fo_error := None; fo_string := Some "S:b" |}, "S:b".
   repeat split. vm_compute. discriminate.
 Qed.
+
+Theorem defer_unlambda_func_var_refuted :
+  exists c st1 st2, defer_unlambda_flags c = true /\ callee_eval st1 c <> callee_eval st2 c.
+Proof. exists (CFuncVar "cleanup"), st_a, st_b. split; [reflexivity|discriminate]. Qed.
